@@ -162,6 +162,49 @@ def crash_case(args):
         sc.close()
 
 
+def memory_tags_case(args):
+    """tags that exist only in memory (the per-group outputs of Concatenator with GroupByTag carry the group's tag without an
+    audit file of their own) reach every consumer of a fanned-out port: the tag is on each consumer's record and on its
+    Upstream entry"""
+    seed, i = args
+    rng = random.Random(seed * 393342757 + i)
+    sp = t3.Spec(maxtasks=rng.randint(1, 3), bufsize=rng.choice([1, 2, 128]))
+    L = rng.randint(1, 4)
+    paths = ["g%d.txt" % j for j in range(L)]
+    for p in paths:
+        sp.files[p] = p + "\n"
+    s = sp.src("src", paths)
+    tg = sp.raw("COMP maptags %s %s %d %s" % (hx("tagger"), hx("grp"), s, hx("out")))
+    cc = sp.raw("COMP concat %s %s %d %s %s" % (hx("cc"), hx("all.txt"), tg, hx("out"), hx("grp")))
+    ncons = rng.randint(1, 3)
+    for k in range(ncons):
+        sp.proc(t3.Proc("c%d" % k, kind="cat", ins=[("a", [(cc, "out")])], outs=[("o", "{i:a}.c%d" % k)]))
+    sc = t3.Scratch()
+    try:
+        sc.plant(sp.files)
+        impl = t3.run_impl(sc, sp)
+        problems = []
+        if impl["rc"] != 0:
+            problems.append(("unexpected-failure", impl["stderr"][-200:]))
+        n = 0
+        for p in paths:
+            grp_file = "all.txt.grp_%s" % p
+            for k in range(ncons):
+                v = impl["fs"].get("%s.c%d.audit.json" % (grp_file, k))
+                if not v or v[0] != "f":
+                    problems.append(("audit-missing", "no audit file for %s.c%d" % (grp_file, k)))
+                    continue
+                rec = json.loads(v[1]); n += 1
+                if (rec.get("Tags") or {}).get("grp") != p:
+                    problems.append(("tags-not-propagated", "the tag grp=%s attached upstream is missing on the record of %s.c%d (Tags %s)" % (p, grp_file, k, rec.get("Tags"))))
+                up = (rec.get("Upstream") or {}).get(grp_file)
+                if up is None or (up.get("Tags") or {}).get("grp") != p:
+                    problems.append(("upstream-tags-lost", "Upstream[%s] of %s.c%d does not carry the tag grp=%s (%s)" % (grp_file, grp_file, k, p, up and up.get("Tags"))))
+        return {"spec": sp.text(), "bufsize": sp.bufsize, "problems": problems[:4], "known": [], "joined": False, "records": n, "ntasks": L * ncons, "rc": impl["rc"], "stderr": impl["stderr"][-200:], "yield": None, "wall": impl["wall"], "shape": 9}
+    finally:
+        sc.close()
+
+
 def run(rep, tier, seed):
     proved = vlib.prove(rep, MODULE, THEOREMS)
     ok, msg = vlib.build_ocaml()
@@ -178,6 +221,7 @@ def run(rep, tier, seed):
             pts, _ = t3.hook_points(sp, prefixes=("exec.", "fin."))
             ccases += [((sp, m), pt) for pt in pts]
     results += t3.run_many(crash_case, ccases)
+    results += t3.run_many(memory_tags_case, [(seed, i) for i in range(n // 8)])
     kf = vlib.known_findings("C10")
     for r in results:
         for kind, path, up, k in r["known"]:
